@@ -264,6 +264,21 @@ PROPERTY_SCOPE: Dict[str, List[str]] = {
 }
 
 
+# the selection / grouping helpers on the call path of the property (TOL and LOST-STORE sweeps)
+EXTRA_SELECT_SCOPE: Dict[str, List[str]] = {
+    'C01': ['data.dataset.', 'data.computations.', 'util.data_utils.', 'util.descriptor_utils.', 'util.build_rdm.', 'util.rdm_utils.'],
+    'C02': ['util.descriptor_utils.', 'data.dataset.Dataset.subset_obs', 'util.data_utils.', 'data.computations.'],
+    'C04': ['rdm.rdms.RDMs.subsample', 'rdm.rdms.RDMs.subset', 'util.descriptor_utils.'],
+    'C05': ['util.descriptor_utils.', 'rdm.rdms.RDMs.subsample', 'rdm.rdms.RDMs.subset'],
+    'C07': ['inference.crossvalsets.sets_leave_one_out_rdm', 'util.inference_util.pool_rdm', 'util.inference_util._nan'],
+    'C09': ['rdm.rdms.RDMs.subsample', 'util.descriptor_utils.'],
+    'C14': ['data.dataset.Dataset.get_measurements_tensor', 'util.data_utils.'],
+    'C15': ['util.data_utils.', 'util.matrix.row_col', 'util.matrix._row_col'],
+    'C17': ['rdm.compare._sort_and_rank', 'rdm.compare._tau_a', 'rdm.compare._kendall_tau', 'rdm.compare.compare_kendall'],
+    'C19': ['util.descriptor_utils.'],
+}
+
+
 # helper modules whose buffers feed the property's values
 EXTRA_DTYPE_SCOPE: Dict[str, List[str]] = {
     'C01': ['data.computations.', 'util.build_rdm.'],
@@ -283,6 +298,9 @@ def run(ctx, obs, prop: str):
     obs.analysed['sweep_inplace_div'] = inplace_division(ctx, obs, pre)
     obs.analysed['sweep_sorted_arg'] = sorted_argument(ctx, obs, pre)
     obs.analysed['sweep_loop_state'] = loop_state(ctx, obs, pre)
+    sel = pre + EXTRA_SELECT_SCOPE.get(prop, [])
+    obs.analysed['sweep_tolerance_selections'] = tolerance_selection(ctx, obs, sel)
+    obs.analysed['sweep_lost_stores'] = lost_store(ctx, obs, sel)
     obs.analysed['sweep_fwd_default_sites'] = a
     obs.analysed['sweep_par_live_params'] = b
     if b == 0:
@@ -723,3 +741,155 @@ def _is_sub_base(name_node, nodes) -> bool:
         if isinstance(x, ast.Attribute) and x.value is name_node and x.attr in ('shape', 'size', 'ndim', 'dtype'):
             return True
     return False
+
+
+# ------------------------------------------------------------------------------------------------------------- TOL
+_TOL_FUNCS = {'isclose', 'allclose'}
+_MASK_CONSUMERS = {'where', 'nonzero', 'flatnonzero', 'argwhere', 'compress', 'extract', 'cumsum', 'count_nonzero', 'sum', 'any', 'all'}
+
+
+def tolerance_selection(ctx, obs, prefixes, rule='TOL') -> int:
+    """Which observation belongs to which condition / fold / time bin, which RDM to which group, which values are tied: all of that is
+    decided by EQUALITY of labels and values throughout the package (==, np.isin, np.unique).  A tolerance comparison
+    (np.isclose / allclose / math.isclose: |a - b| <= atol + rtol * |b|) is not an equivalence relation and its default rtol merges
+    neighbouring values of magnitude 1e5 and more (sample indices, ms time stamps, subject ids) - used to SELECT or GROUP data it
+    attaches observations to the wrong label.  Sweep: every tolerance call whose result (directly or through locals) is used as an
+    index / mask, is fed to where / nonzero / cumsum, or is returned as the result of the function, is a violation; a tolerance call
+    that only feeds an `if` / assert (a numerical sanity decision) is noted as undecided."""
+    prog = ctx.prog
+    n = 0
+    for q, f in sorted(prog.functions.items()):
+        if not _in_scope(q, prefixes):
+            continue
+        calls = [c for c in ast.walk(f.node) if isinstance(c, ast.Call) and _leafname(c.func) in _TOL_FUNCS]
+        if not calls:
+            continue
+        parents = {}
+        for p_ in ast.walk(f.node):
+            for ch in ast.iter_child_nodes(p_):
+                parents[id(ch)] = p_
+        tainted = set()
+        changed = True
+        while changed:
+            changed = False
+            for st in ast.walk(f.node):
+                if isinstance(st, ast.Assign) and len(st.targets) == 1 and isinstance(st.targets[0], ast.Name) and st.targets[0].id not in tainted:
+                    v = st.value
+                    if any((isinstance(x, ast.Call) and _leafname(x.func) in _TOL_FUNCS) or (isinstance(x, ast.Name) and x.id in tainted)
+                           for x in ast.walk(v)):
+                        # a reduction to one truth value (all() / any() without axis) is a decision, not a mask
+                        scalar = isinstance(v, ast.Call) and _leafname(v.func) in ('all', 'any', 'allclose') and not any(
+                            k.arg == 'axis' for k in v.keywords) and len(v.args) <= 1
+                        if not scalar:
+                            tainted.add(st.targets[0].id)
+                            changed = True
+
+        def selecting_use(node):
+            """is this expression node (a tolerance call or a tainted name) used to select / group?"""
+            cur = node
+            while True:
+                p_ = parents.get(id(cur))
+                if p_ is None:
+                    return None
+                if isinstance(p_, ast.Subscript) and (p_.slice is cur or any(x is cur for x in ast.walk(p_.slice))) and p_.value is not cur:
+                    return p_
+                if isinstance(p_, ast.Call) and _leafname(p_.func) in _MASK_CONSUMERS and cur is not p_.func:
+                    if _leafname(p_.func) in ('all', 'any', 'sum', 'count_nonzero') and not any(k.arg == 'axis' for k in p_.keywords) \
+                            and len(p_.args) <= 1:
+                        return None
+                    return p_
+                if isinstance(p_, ast.Return):
+                    return p_
+                if isinstance(p_, (ast.If, ast.While, ast.Assert, ast.IfExp)) and getattr(p_, 'test', None) is cur:
+                    return None
+                if isinstance(p_, ast.stmt):
+                    return None
+                cur = p_
+        for c in calls:
+            if _leafname(c.func) == 'allclose':
+                continue
+            n += 1
+            con = 'labels, time points, folds and ties are matched by equality, not within a tolerance'
+            uses = [selecting_use(c)]
+            for x in ast.walk(f.node):
+                if isinstance(x, ast.Name) and x.id in tainted and isinstance(x.ctx, ast.Load):
+                    uses.append(selecting_use(x))
+            uses = [u for u in uses if u is not None]
+            if uses:
+                obs.bad(rule, q, con, f'`{norm(c)[:70]}` decides which entries are selected / grouped (`{norm(uses[0])[:60]}`): values within '
+                        f'rtol * |value| of each other are treated as the same label, so neighbouring labels of large magnitude (and tied '
+                        f'or near-tied values) are merged', where(prog, f, c))
+            else:
+                obs.unk(rule, q, con, f'`{norm(c)[:70]}` feeds a decision only', where(prog, f, c))
+    return n
+
+
+# -------------------------------------------------------------------------------------------------------- LOST-STORE
+def lost_store(ctx, obs, prefixes, rule='LOST-STORE') -> int:
+    """`a[mask][:, other] = v` / `a[idx_array][k] = v`: indexing with a boolean mask or an index array makes a COPY, so a store
+    through a second subscript lands in a temporary and `a` is unchanged.  Sweep over assignment targets whose base is itself a
+    subscript with a definitely advanced index (a name bound to a comparison / boolean expression / np.where / np.array / list
+    display, or such an expression in place)."""
+    prog = ctx.prog
+    n = 0
+    for q, f in sorted(prog.functions.items()):
+        if not _in_scope(q, prefixes):
+            continue
+        r = None
+        for st in ast.walk(f.node):
+            if not isinstance(st, (ast.Assign, ast.AugAssign)):
+                continue
+            tg = st.targets if isinstance(st, ast.Assign) else [st.target]
+            for t in tg:
+                if not (isinstance(t, ast.Subscript) and isinstance(t.value, ast.Subscript)):
+                    continue
+                inner = t.value
+                if r is None:
+                    r = ctx.dep.result(q)
+                kind = _index_kind(inner.slice, r)
+                if kind is None:
+                    continue
+                n += 1
+                con = 'a store reaches the array it is meant for'
+                if kind == 'advanced':
+                    obs.bad(rule, q, con, f'`{norm(t)[:70]} = ...`: `{norm(inner)[:50]}` is indexed with a mask / index array and therefore a '
+                            f'copy; the assignment writes into that temporary and `{norm(inner.value)[:30]}` keeps its old values',
+                            where(prog, f, st))
+                else:
+                    obs.ok(rule, q, con, f'`{norm(inner)[:50]}` is a view (basic indexing)', where(prog, f, st))
+    return n
+
+
+def _index_kind(sl, r, depth=0):
+    """'basic' (ints / slices / newaxis only), 'advanced' (some component definitely a mask or an index array), None (unknown)"""
+    items = list(sl.elts) if isinstance(sl, ast.Tuple) else [sl]
+    kinds = []
+    for it in items:
+        if isinstance(it, ast.Slice) or (isinstance(it, ast.Constant) and (it.value is None or isinstance(it.value, int))) \
+                or (isinstance(it, ast.Attribute) and it.attr == 'newaxis') or (isinstance(it, ast.UnaryOp) and isinstance(it.operand, ast.Constant)):
+            kinds.append('basic')
+        elif isinstance(it, (ast.Compare, ast.List)) or (isinstance(it, ast.UnaryOp) and isinstance(it.op, ast.Invert)) \
+                or (isinstance(it, ast.BinOp) and isinstance(it.op, (ast.BitAnd, ast.BitOr))) \
+                or (isinstance(it, ast.Call) and _leafname(it.func) in ('where', 'nonzero', 'array', 'arange', 'isnan', 'isfinite', 'logical_not',
+                                                                       'logical_and', 'logical_or', 'outer', 'ix_', 'flatnonzero', 'argsort')):
+            kinds.append('advanced')
+        elif isinstance(it, ast.Name) and depth < 3 and r is not None:
+            ids = r.load_defs.get(id(it), ())
+            sub = set()
+            for i in ids:
+                d = r.defs[i]
+                if d.kind == 'assign' and d.rhs is not None and isinstance(d.node, ast.Assign) and isinstance(d.node.targets[0], ast.Name):
+                    sub.add(_index_kind(d.rhs, r, depth + 1))
+                elif d.kind == 'for':
+                    it_ = getattr(d.node, 'iter', None)
+                    sub.add('basic' if isinstance(it_, ast.Call) and _leafname(it_.func) in ('range', 'enumerate') else None)
+                else:
+                    sub.add(None)
+            kinds.append(next(iter(sub)) if len(sub) == 1 else None)
+        else:
+            kinds.append(None)
+    if 'advanced' in kinds:
+        return 'advanced'
+    if all(k == 'basic' for k in kinds):
+        return 'basic'
+    return None
